@@ -68,6 +68,11 @@ class CollisionOracle:
         # ---- internal error paths / refused steps
         for (t, nname, text, where, tb) in w.internal_errors[self.err_idx:]:
             self._r('internal_error_path')
+            if 'IkeSaStateError' not in text.split(':')[0]:
+                # not a refused step but a handler that crashed (AttributeError, TypeError, KeyError...): never legal, in any batch
+                self.err_idx = len(w.internal_errors)
+                return self.viol('handler_crashed', {'error': text.split(':')[0].split('.')[-1], 'where': where},
+                                 f'{nname}: a message handler raised {text} at {where} on authentic traffic')
             if self.fifo:
                 self.err_idx = len(w.internal_errors)
                 m = re.search(r'Cannot process an? (\S+) (\S+) when in state (\S+)\.', text)
@@ -79,10 +84,15 @@ class CollisionOracle:
         for (t, nname, lvl, msg) in w.logs[self.log_idx:]:
             if 'Error while processing an event' in msg:
                 self._r('event_error_caught_by_loop')
-                if self.fifo:
+                err = msg.split('Omitting it: ')[-1].split('(')[0]
+                if err in ('InvalidSyntax', 'UnsupportedCriticalPayload'):
+                    # a datagram that does not verify / parse is dropped: the protocol-error family is how the codec says so
+                    # (it happens on authentic traffic too: an IKE_SA_INIT retry race leaves the two ends with different keys)
+                    self._r('undecodable_datagram_dropped')
+                    continue
+                if True:
                     self.log_idx = len(w.logs)
-                    return self.viol('exception_escaped_entry_point', {'error': msg.split('Omitting it: ')[-1].split('(')[0]},
-                                     f'{nname}: lossless FIFO batch: {msg}')
+                    return self.viol('exception_escaped_entry_point', {'error': err}, f'{nname}: {msg}')
         self.log_idx = len(w.logs)
         # ---- calm points, agreement
         qf = w.scenario.get('quiet_from', 0)
@@ -154,9 +164,12 @@ def generate(seed, tier):
     for _ in range(n_forced):
         t = round(r.uniform(2.0, T * 0.9), 3)
         pair = r.random() < 0.6
+        same_kind = None
         for who, dt in ((r.choice('AB'), 0.0),) + (((r.choice('AB'), r.choice([0.0, 0.001, 0.004, 0.02, 0.3]))) ,) * pair:
             conn = ra if who == 'A' else rb
-            kind = r.choice(['acquire', 'expire_soft', 'expire_hard', 'rekey_ike', 'delete_ike', 'dpd'])
+            kind = r.choice(['acquire', 'expire_soft', 'expire_hard', 'rekey_ike', 'rekey_ike', 'delete_ike', 'dpd']) if not same_kind else same_kind
+            if pair and same_kind is None and r.random() < 0.35:
+                same_kind = kind          # both ends pull the same trigger (simultaneous rekey / delete / ...)
             tt = round(t + dt, 4)
             if kind == 'acquire':
                 ent = r.randrange(len(conn['protect']))
